@@ -1,21 +1,1083 @@
-//! Monitor for property C13 (see /verif/DESIGN.md §6).
+//! Monitor for property C13 - Liang hyphenation positions; exceptions always win; matching
+//! through the lower-case map (DESIGN.md §6 C13).
+//!
+//! Observed event: `hyphenate::Hyphenator::calculate_indices(lower_caser, word)` of the real crate,
+//! for hyphenators built through the public `load_patterns` / `insert_exception` API.
+//! Oracle: `vmodels::liang` (transcription of TeX §919-§931, §934-§940, §960-§965), two formulations.
+
+use std::sync::OnceLock;
 use vcore::*;
+use vmodels::liang::{Liang, Pattern};
 
 pub struct M;
 pub static MONITOR: M = M;
+
+const KNOWN_EXC: &str = "C13-exception-overridden-by-high-digit";
+
+// ------------------------------------------------------------------------------------------
+// alphabets and the lower-case map
+// ------------------------------------------------------------------------------------------
+
+/// A letter = (lower-case form, upper-case form). The non-ASCII ones make the byte offset of a
+/// letter differ from its index (the implementation slices the word by byte offsets).
+const ASCII3: &[(char, char)] = &[('a', 'A'), ('b', 'B'), ('c', 'C')];
+const ASCII4: &[(char, char)] = &[('a', 'A'), ('b', 'B'), ('c', 'C'), ('d', 'D')];
+const MULTI3: &[(char, char)] = &[('a', 'A'), ('é', 'É'), ('ж', 'Ж')];
+const MULTI4: &[(char, char)] = &[('a', 'A'), ('é', 'É'), ('ж', 'Ж'), ('ḁ', 'Ḁ')];
+
+/// The harness's own lower-case map (the `\lccode` table of the configuration): defined exactly on
+/// the letters of the alphabet in use.
+struct TableLc {
+    letters: &'static [(char, char)],
+}
+
+impl hyphenate::LowerCaser for TableLc {
+    fn to_lower_case(&self, c: char) -> Option<char> {
+        self.letters
+            .iter()
+            .find(|(l, u)| *l == c || *u == c)
+            .map(|(l, _)| *l)
+    }
+}
+
+fn lower_table(letters: &[(char, char)], c: char) -> Option<char> {
+    letters
+        .iter()
+        .find(|(l, u)| *l == c || *u == c)
+        .map(|(l, _)| *l)
+}
+
+fn lower_ascii(c: char) -> Option<char> {
+    if c.is_ascii_alphabetic() {
+        Some(c.to_ascii_lowercase())
+    } else {
+        None
+    }
+}
+
+// ------------------------------------------------------------------------------------------
+// running the real code
+// ------------------------------------------------------------------------------------------
+
+enum LcKind {
+    Ascii,
+    Table(&'static [(char, char)]),
+}
+
+struct Real {
+    h: hyphenate::Hyphenator,
+    lc: LcKind,
+}
+
+impl Real {
+    fn indices(&self, word: &str) -> Result<Vec<usize>, PanicInfo> {
+        match &self.lc {
+            LcKind::Ascii => {
+                let lc = hyphenate::AsciiLowerCaser::default();
+                catch(|| self.h.calculate_indices(&lc, word).collect::<Vec<usize>>())
+            }
+            LcKind::Table(t) => {
+                let lc = TableLc { letters: t };
+                catch(|| self.h.calculate_indices(&lc, word).collect::<Vec<usize>>())
+            }
+        }
+    }
+    fn lower(&self, word: &str) -> Option<Vec<char>> {
+        word.chars()
+            .map(|c| match &self.lc {
+                LcKind::Ascii => lower_ascii(c),
+                LcKind::Table(t) => lower_table(t, c),
+            })
+            .collect()
+    }
+}
+
+/// A configuration: pattern texts and exception texts, given to the real code and to the model.
+#[derive(Clone, Debug, Default)]
+struct Config {
+    patterns: Vec<String>,
+    exceptions: Vec<String>,
+}
+
+fn build(cfg: &Config, lc: LcKind) -> Result<(Real, Liang), PanicInfo> {
+    let mut model = Liang::new();
+    for p in &cfg.patterns {
+        let parsed = Pattern::parse(p).expect("generator emits only in-domain patterns");
+        let fresh = model.add_pattern(parsed);
+        assert!(fresh, "generator emits no duplicate patterns");
+    }
+    for e in &cfg.exceptions {
+        model.add_exception(e);
+    }
+    let text = cfg.patterns.join(" ");
+    let exc = cfg.exceptions.clone();
+    let h = catch(move || {
+        let mut h = hyphenate::Hyphenator::default();
+        h.load_patterns(&text);
+        for e in &exc {
+            h.insert_exception(e);
+        }
+        h
+    })?;
+    Ok((Real { h, lc }, model))
+}
+
+/// Statistics about one word that feed the observation counters.
+#[derive(Default)]
+struct WordFacts {
+    has_position: bool,
+    exception: bool,
+    exception_and_pattern_match: bool,
+    competition: bool,
+    start_anchor_match: bool,
+    end_anchor_match: bool,
+    long_match: bool,
+    zero_run16_match: bool,
+    high_digit_match: bool,
+}
+
+fn facts(model: &Liang, w: &[char]) -> WordFacts {
+    let mut f = WordFacts::default();
+    let n = w.len();
+    let mut contrib: Vec<Vec<u8>> = vec![vec![]; n + 1];
+    let mut any_match = false;
+    for p in model.patterns() {
+        let m = p.letters.len();
+        if m > n {
+            continue;
+        }
+        for off in 0..=(n - m) {
+            if (p.start && off != 0) || (p.end && off + m != n) {
+                continue;
+            }
+            if w[off..off + m] != p.letters[..] {
+                continue;
+            }
+            any_match = true;
+            f.start_anchor_match |= p.start;
+            f.end_anchor_match |= p.end;
+            f.long_match |= m >= 17;
+            // a run of >= 16 zero levels before a non-zero level or before the end: the op stream
+            // needs the 15*16+0 continuation byte
+            let mut run = 0;
+            for d in &p.digits {
+                if *d == 0 {
+                    run += 1;
+                } else {
+                    if run >= 16 {
+                        f.zero_run16_match = true;
+                    }
+                    run = 0;
+                }
+            }
+            if run >= 17 {
+                f.zero_run16_match = true;
+            }
+            for k in 0..=m {
+                if p.digits[k] != 0 {
+                    contrib[off + k].push(p.digits[k]);
+                    if p.digits[k] >= 6 && off + k >= 1 && off + k < n {
+                        f.high_digit_match = true;
+                    }
+                }
+            }
+        }
+    }
+    f.competition = contrib[1..n.max(1)]
+        .iter()
+        .any(|c| c.iter().any(|d| d % 2 == 1) && c.iter().any(|d| d % 2 == 0));
+    f.exception = model.exception(w).is_some();
+    f.exception_and_pattern_match = f.exception && any_match;
+    f.has_position = !model.positions(w).is_empty();
+    f
+}
+
+/// Compare the real code with the model on one word. Returns true if the word was evaluated.
+fn check_word(
+    obs: &mut Obs,
+    real: &Real,
+    model: &Liang,
+    cfg_desc: &dyn Fn() -> Value,
+    word: &str,
+    detailed: bool,
+) -> Option<WordFacts> {
+    let Some(lw) = real.lower(word) else {
+        obs.skip("word contains a non-letter");
+        return None;
+    };
+    obs.count("words_checked");
+    let want = model.positions(&lw);
+    let got = match real.indices(word) {
+        Ok(v) => v,
+        Err(p) => {
+            obs.repo_panic(&p, json!({"config": cfg_desc(), "word": word}));
+            return None;
+        }
+    };
+    if got != want {
+        // known finding: the word is an exception and a pattern level >= 7 matches inside it
+        let is_exc = model.exception(&lw).is_some();
+        let n = lw.len();
+        let high = {
+            let s = model.scores(&lw);
+            (1..n).any(|i| s[i] >= 7)
+        };
+        let detail = json!({
+            "config": cfg_desc(), "word": word, "lower_cased": lw.iter().collect::<String>(),
+            "got_positions": got, "model_positions": want,
+            "model_levels": model.scores(&lw), "exception_entry": model.exception(&lw),
+        });
+        if is_exc && high && got == model.positions_exception_as_levels(&lw) {
+            obs.known(KNOWN_EXC, detail);
+        } else {
+            let extra = got.iter().any(|g| !want.contains(g));
+            let missing = want.iter().any(|g| !got.contains(g));
+            let sig = format!(
+                "positions-differ/{}/{}",
+                if is_exc { "exception-word" } else { "patterns" },
+                match (extra, missing) {
+                    (true, true) => "extra+missing",
+                    (true, false) => "extra",
+                    (false, true) => "missing",
+                    _ => "order",
+                }
+            );
+            obs.violation(sig, detail);
+        }
+    }
+    if !detailed {
+        if !want.is_empty() {
+            obs.count("words_with_positions");
+        }
+        return Some(WordFacts {
+            has_position: !want.is_empty(),
+            ..Default::default()
+        });
+    }
+    // two formulations of the model must agree
+    if model.scores(&lw) != model.scores_linear(&lw) {
+        obs.inconclusive(format!("model formulations disagree on {word:?}"));
+    }
+    let f = facts(model, &lw);
+    for (c, name) in [
+        (f.has_position, "words_with_positions"),
+        (f.exception, "words_in_exception_list"),
+        (f.exception_and_pattern_match, "exception_words_where_patterns_also_match"),
+        (f.competition, "words_with_competing_odd_even_levels"),
+        (f.start_anchor_match, "words_matched_by_start_anchored_pattern"),
+        (f.end_anchor_match, "words_matched_by_end_anchored_pattern"),
+        (f.long_match, "words_matched_by_pattern_of_17+_letters"),
+        (f.zero_run16_match, "words_matched_by_pattern_with_16+_zero_run"),
+        (f.high_digit_match, "words_matched_by_level_6-9"),
+    ] {
+        if c {
+            obs.count(name);
+        }
+    }
+    if word.chars().any(|c| lower_ascii(c).or(lower_table(MULTI4, c)) != Some(c)) {
+        obs.count("words_with_upper_case");
+    }
+    if word.len() != word.chars().count() {
+        obs.count("words_with_multibyte_letters");
+    }
+    Some(f)
+}
+
+// ------------------------------------------------------------------------------------------
+// generators
+// ------------------------------------------------------------------------------------------
+
+fn gen_digit(rng: &mut Rng, zero_num: u64, zero_den: u64) -> u8 {
+    if rng.chance(zero_num, zero_den) {
+        0
+    } else {
+        match rng.below(10) {
+            0..=4 => rng.range_usize(1, 5) as u8,
+            _ => rng.range_usize(6, 9) as u8,
+        }
+    }
+}
+
+fn pattern_text(start: bool, end: bool, letters: &[char], digits: &[u8]) -> String {
+    Pattern {
+        start,
+        end,
+        letters: letters.to_vec(),
+        digits: digits.to_vec(),
+    }
+    .to_text()
+}
+
+fn gen_pattern(rng: &mut Rng, alpha: &[(char, char)], len: usize) -> (bool, bool, Vec<char>, Vec<u8>) {
+    let letters: Vec<char> = (0..len).map(|_| rng.pick(alpha).0).collect();
+    let start = rng.chance(1, 5);
+    let end = rng.chance(1, 5);
+    let mut digits: Vec<u8> = (0..=len).map(|_| gen_digit(rng, 11, 20)).collect();
+    if digits.iter().all(|d| *d == 0) && rng.chance(9, 10) {
+        let i = rng.usize_below(len + 1);
+        digits[i] = rng.range_usize(1, 9) as u8;
+    }
+    (start, end, letters, digits)
+}
+
+fn gen_exception(rng: &mut Rng, alpha: &[(char, char)], maxlen: usize) -> String {
+    let len = rng.range_usize(1, maxlen);
+    let mut s = String::new();
+    if rng.chance(1, 12) {
+        s.push('-');
+    }
+    for i in 0..len {
+        s.push(rng.pick(alpha).0);
+        if i + 1 < len && rng.chance(1, 3) {
+            s.push('-');
+            if rng.chance(1, 20) {
+                s.push('-');
+            }
+        }
+    }
+    if rng.chance(1, 12) {
+        s.push('-');
+    }
+    s
+}
+
+fn gen_config(rng: &mut Rng, alpha: &[(char, char)]) -> Config {
+    let mut cfg = Config::default();
+    let npat = match rng.below(10) {
+        0 => 1,
+        1..=5 => rng.range_usize(2, 6),
+        6..=8 => rng.range_usize(7, 14),
+        _ => rng.range_usize(15, 40),
+    };
+    let mut keys = std::collections::HashSet::new();
+    for _ in 0..npat {
+        let len = match rng.below(20) {
+            0..=5 => 1,
+            6..=11 => 2,
+            12..=15 => 3,
+            16..=17 => 4,
+            18 => 5,
+            _ => rng.range_usize(6, 9),
+        };
+        let (s, e, l, d) = gen_pattern(rng, alpha, len);
+        if keys.insert((s, e, l.clone())) {
+            cfg.patterns.push(pattern_text(s, e, &l, &d));
+        }
+    }
+    // nested pairs: a pattern and an extension of it by one letter (shared trie path)
+    if rng.chance(1, 2) && !cfg.patterns.is_empty() {
+        let base = Pattern::parse(pick_string(rng, &cfg.patterns)).expect("in domain");
+        if !base.end {
+            let mut l = base.letters.clone();
+            l.push(rng.pick(alpha).0);
+            let d: Vec<u8> = (0..=l.len()).map(|_| gen_digit(rng, 1, 2)).collect();
+            if keys.insert((base.start, false, l.clone())) {
+                cfg.patterns.push(pattern_text(base.start, false, &l, &d));
+            }
+        }
+    }
+    let nexc = match rng.below(10) {
+        0..=3 => 0,
+        4..=7 => rng.range_usize(1, 3),
+        _ => rng.range_usize(4, 10),
+    };
+    for _ in 0..nexc {
+        cfg.exceptions.push(gen_exception(rng, alpha, 7));
+    }
+    // the same word listed twice: the later entry wins
+    if nexc > 0 && rng.chance(1, 4) {
+        let w: String = pick_string(rng, &cfg.exceptions).chars().filter(|c| *c != '-').collect();
+        let chars: Vec<char> = w.chars().collect();
+        let mut s = String::new();
+        for (i, c) in chars.iter().enumerate() {
+            s.push(*c);
+            if i + 1 < chars.len() && rng.coin() {
+                s.push('-');
+            }
+        }
+        cfg.exceptions.push(s);
+    }
+    // an exception whose letters equal an anchored pattern (.w.) of the set: same trie node
+    if rng.chance(1, 6) {
+        let l: Vec<char> = (0..rng.range_usize(2, 4)).map(|_| rng.pick(alpha).0).collect();
+        if keys.insert((true, true, l.clone())) {
+            let d: Vec<u8> = (0..=l.len()).map(|_| gen_digit(rng, 1, 3)).collect();
+            cfg.patterns.push(pattern_text(true, true, &l, &d));
+            let mut s = String::new();
+            for (i, c) in l.iter().enumerate() {
+                s.push(*c);
+                if i + 1 < l.len() && rng.coin() {
+                    s.push('-');
+                }
+            }
+            cfg.exceptions.push(s);
+        }
+    }
+    cfg
+}
+
+fn random_case(rng: &mut Rng, alpha: &[(char, char)], w: &[char], mode: u64) -> String {
+    w.iter()
+        .enumerate()
+        .map(|(i, c)| {
+            let up = alpha.iter().find(|(l, _)| l == c).map(|(_, u)| *u).unwrap_or(*c);
+            match mode {
+                0 => *c,
+                1 => up,
+                2 => {
+                    if i == 0 {
+                        up
+                    } else {
+                        *c
+                    }
+                }
+                _ => {
+                    if rng.coin() {
+                        up
+                    } else {
+                        *c
+                    }
+                }
+            }
+        })
+        .collect()
+}
+
+/// idx-th word in the enumeration of all words of length 1..=maxlen over `k` letters
+/// (shortest first). Returns None past the end.
+fn nth_word(alpha: &[(char, char)], mut idx: u64, maxlen: usize) -> Option<Vec<char>> {
+    let k = alpha.len() as u64;
+    let mut len = 1;
+    let mut block = k;
+    loop {
+        if len > maxlen {
+            return None;
+        }
+        if idx < block {
+            break;
+        }
+        idx -= block;
+        block *= k;
+        len += 1;
+    }
+    let mut w = vec![];
+    for _ in 0..len {
+        w.push(alpha[(idx % k) as usize].0);
+        idx /= k;
+    }
+    Some(w)
+}
+
+fn cfg_json(cfg: &Config) -> Value {
+    json!({"patterns": cfg.patterns, "exceptions": cfg.exceptions})
+}
+
+// ------------------------------------------------------------------------------------------
+// plain TeX patterns
+// ------------------------------------------------------------------------------------------
+
+struct Plain {
+    real: Real,
+    model: Liang,
+    pattern_letters: Vec<String>,
+    exception_words: Vec<String>,
+}
+
+fn read_repo(rel: &str) -> Result<String, String> {
+    let p = repo_dir().join(rel);
+    std::fs::read_to_string(&p).map_err(|e| format!("{}: {e}", p.display()))
+}
+
+fn plain() -> Result<&'static Plain, String> {
+    static P: OnceLock<Result<Plain, String>> = OnceLock::new();
+    P.get_or_init(|| {
+        let pats = read_repo("crates/hyphenate/src/plain_tex_patterns.txt")?;
+        let excs = read_repo("crates/hyphenate/src/plain_tex_exceptions.txt")?;
+        let mut model = Liang::new();
+        let bad = model.load_patterns(&pats);
+        if bad != 0 {
+            return Err(format!("{bad} plain TeX patterns are malformed or duplicated"));
+        }
+        let mut exception_words = vec![];
+        for l in excs.lines().map(|l| l.trim()).filter(|l| !l.is_empty()) {
+            model.add_exception(l);
+            exception_words.push(l.chars().filter(|c| *c != '-').collect());
+        }
+        let pattern_letters = model
+            .patterns()
+            .iter()
+            .map(|p| p.letters.iter().collect::<String>())
+            .collect();
+        let h = catch(hyphenate::Hyphenator::plain_tex_en_us)
+            .map_err(|p| format!("plain_tex_en_us panicked: {}", p.message))?;
+        Ok(Plain {
+            real: Real {
+                h,
+                lc: LcKind::Ascii,
+            },
+            model,
+            pattern_letters,
+            exception_words,
+        })
+    })
+    .as_ref()
+    .map_err(|e| e.clone())
+}
+
+const ONSETS: &[&str] = &[
+    "b", "c", "d", "f", "g", "h", "j", "k", "l", "m", "n", "p", "qu", "r", "s", "t", "v", "w", "x", "z", "bl",
+    "br", "ch", "cl", "cr", "dr", "fl", "fr", "gl", "gr", "ph", "pl", "pr", "sc", "sh", "sl", "sp", "st", "str",
+    "th", "tr", "wh", "",
+];
+const NUCLEI: &[&str] = &[
+    "a", "e", "i", "o", "u", "y", "ai", "ea", "ee", "ie", "io", "oo", "ou", "ia", "ue",
+];
+const CODAS: &[&str] = &[
+    "", "", "", "n", "r", "s", "t", "l", "m", "ng", "nt", "st", "ck", "ff", "ll", "ss", "rd", "x", "c", "ble",
+    "tion", "ment", "ness", "ing", "ed", "ly", "ism", "ist", "ic", "al",
+];
+
+fn pick_s(rng: &mut Rng, xs: &[&'static str]) -> &'static str {
+    xs[rng.usize_below(xs.len())]
+}
+
+fn pick_string<'a>(rng: &mut Rng, xs: &'a [String]) -> &'a str {
+    xs[rng.usize_below(xs.len())].as_str()
+}
+
+fn gen_plain_word(rng: &mut Rng, p: &Plain) -> String {
+    let mut w = String::new();
+    match rng.below(10) {
+        0..=3 => {
+            for _ in 0..rng.range_usize(1, 6) {
+                w.push_str(pick_s(rng, ONSETS));
+                w.push_str(pick_s(rng, NUCLEI));
+                w.push_str(pick_s(rng, CODAS));
+            }
+        }
+        4..=7 => {
+            for _ in 0..rng.range_usize(1, 5) {
+                w.push_str(pick_string(rng, &p.pattern_letters));
+                if rng.chance(1, 3) {
+                    w.push_str(pick_s(rng, NUCLEI));
+                }
+            }
+        }
+        8 => {
+            w.push_str(pick_string(rng, &p.exception_words));
+            if rng.chance(1, 3) {
+                w.push_str(pick_s(rng, CODAS));
+            }
+            if rng.chance(1, 6) {
+                w.insert_str(0, pick_s(rng, ONSETS));
+            }
+        }
+        _ => {
+            for _ in 0..rng.range_usize(1, 40) {
+                w.push((b'a' + rng.below(26) as u8) as char);
+            }
+        }
+    }
+    let mut chars: Vec<char> = w.chars().take(40).collect();
+    if chars.is_empty() {
+        chars.push('a');
+    }
+    let mode = rng.below(6).min(3);
+    let mut out = String::new();
+    for (i, c) in chars.iter().enumerate() {
+        let up = match mode {
+            0 => false,
+            1 => true,
+            2 => i == 0,
+            _ => rng.coin(),
+        };
+        out.push(if up { c.to_ascii_uppercase() } else { *c });
+    }
+    out
+}
+
+/// Ground truth copied from the unit tests of crates/hyphenate/src/lib.rs (`hyphenation_tests!`;
+/// the first block are TeXbook words, the second was produced with real TeX over a dictionary).
+const GOLDEN_WORDS: &[(&str, &str)] = &[
+    ("record", "record"),
+    ("hyphenation", "hy-phen-ation"),
+    ("concatenation", "con-cate-na-tion"),
+    (
+        "supercalifragilisticexpialidocious",
+        "su-per-cal-ifrag-ilis-tic-ex-pi-ali-do-cious",
+    ),
+    ("bachelor", "bach-e-lor"),
+    ("echelon", "ech-e-lon"),
+    ("toothaches", "toothaches"),
+    ("campfire", "camp-fire"),
+    ("biorhythm", "biorhyth-m"),
+    ("algorithm", "al-go-rith-m"),
+    (
+        "pneumonoultramicroscopicsilicovolcanoconiosis",
+        "p-neu-monoul-tra-mi-cro-scop-ic-sil-i-co-vol-canoco-nio-sis",
+    ),
+    ("project", "project"),
+    ("present", "present"),
+    ("table", "ta-ble"),
+    ("Table", "Ta-ble"),
+    ("ach", "ach"),
+    ("Aaronic", "Aa-ron-ic"),
+    ("Abelia", "A-beli-a"),
+    ("William", "William"),
+    ("chaffless", "chaf-f-less"),
+];
+
+/// `aggregate_scores` asserted by the `explanation_tests!` of the same file.
+const GOLDEN_LEVELS: &[(&str, &[u8])] = &[
+    ("difficult", &[0, 1, 4, 1, 0, 3, 0, 4, 0]),
+    ("cove", &[0, 0, 4, 1]),
+    ("antce", &[0, 2, 4, 4, 0]),
+];
+
+// ------------------------------------------------------------------------------------------
+// the exhaustively enumerated single-pattern space
+// ------------------------------------------------------------------------------------------
+
+const ENUM_ALPHA: &[(char, char)] = &[('a', 'A'), ('b', 'B')];
+const ENUM_LEVELS: [u8; 4] = [0, 1, 2, 7];
+
+/// Number of patterns with `len` letters: 2^len letter strings * 4^(len+1) level vectors * 4 anchors.
+fn enum_block(len: u32) -> u64 {
+    2u64.pow(len) * 4u64.pow(len + 1) * 4
+}
+
+fn enum_total() -> u64 {
+    enum_block(1) + enum_block(2) + enum_block(3)
+}
+
+fn enum_decode(mut idx: u64) -> (bool, bool, Vec<char>, Vec<u8>) {
+    let mut len = 1u32;
+    while idx >= enum_block(len) {
+        idx -= enum_block(len);
+        len += 1;
+    }
+    let start = idx & 1 == 1;
+    let end = idx & 2 == 2;
+    idx >>= 2;
+    let mut letters = vec![];
+    for _ in 0..len {
+        letters.push(ENUM_ALPHA[(idx & 1) as usize].0);
+        idx >>= 1;
+    }
+    let mut digits = vec![];
+    for _ in 0..=len {
+        digits.push(ENUM_LEVELS[(idx & 3) as usize]);
+        idx >>= 2;
+    }
+    (start, end, letters, digits)
+}
+
+// ------------------------------------------------------------------------------------------
 
 impl Monitor for M {
     fn id(&self) -> &'static str {
         "C13"
     }
+
     fn rule(&self) -> String {
-        "not built yet".into()
+        "A case is one configuration (pattern set + exception list + lower-case map) together with the \
+         words tried on it; every word is one evaluation of Hyphenator::calculate_indices compared with \
+         the reference positions. Phases: `sets` = random pattern sets over 3-4 letter alphabets (ASCII \
+         and multi-byte, levels 0-9, anchored/nested/overlapping patterns, exception lists incl. \
+         duplicates and exception==anchored pattern), each tried on ALL words up to length 7 (3 letters) \
+         or 6 (4 letters) plus random-case variants plus 40 random words of length <=40; `long` = \
+         patterns of 17-40 letters whose zero runs straddle the 16-zero continuation byte; `enum` = \
+         every single pattern of 1-3 letters over {a,b} with levels {0,1,2,7} and every anchor \
+         combination, with and without an exception, on every word of length <=7 over {a,b} in both \
+         cases; `plain` = plain TeX's 4447 patterns + 14 exceptions on generated English-like words in \
+         random case; `known` = the fixed reproducer of the listed finding. A case is non-trivial when \
+         at least one of its words gets a hyphen position and at least one word has an odd and an even \
+         level competing in the same gap (or is in the exception list while patterns match it); \
+         distinct = hash of (patterns, exceptions, alphabet)."
+            .into()
     }
+
     fn assumptions(&self) -> Vec<String> {
-        vec![]
+        vec![
+            "patterns are well formed in TeX's sense (§962): no two digits in a row, `.` only first/last, no digit outside the dots, no duplicate pattern (TeX rejects those: 'Duplicate pattern')".into(),
+            "patterns are loaded before exceptions (the order of Hyphenator::plain_tex_en_us); exception words are given in lower case (the API does not lower-case them, TeX's \\hyphenation does)".into(),
+            "words consist of letters of the configuration's lower-case map only (the property's quantifier); behaviour on non-letters belongs to C14".into(),
+            "the reference model is a transcription of TeX §919-§931/§934-§940/§960-§965, calibrated against the 20 hyphenation_tests! words and 3 explanation_tests! level vectors of crates/hyphenate/src/lib.rs and the TeXbook's Appendix H example".into(),
+        ]
     }
-    fn phases(&self, _tier: Tier) -> Vec<Phase> {
-        vec![]
+
+    fn phases(&self, tier: Tier) -> Vec<Phase> {
+        vec![
+            Phase::new("known", 1).batch(1),
+            Phase::new("enum", enum_total())
+                .batch(128)
+                .exhaustive("every single pattern of 1-3 letters over {a,b}, levels {0,1,2,7} in every gap, every anchor combination, alone and with the exception a-b/ab-a, on every word of length <=7 over {a,b}, lower and upper case"),
+            Phase::new("sets", tier.pick(5_000, 300_000)).batch(8),
+            Phase::new("long", tier.pick(10_000, 400_000)).batch(32),
+            Phase::new("plain", tier.pick(4_000, 100_000)).batch(16),
+        ]
     }
-    fn run_case(&self, _phase: &str, _idx: u64, _rng: &mut Rng, _obs: &mut Obs) {}
+
+    fn floors(&self, tier: Tier) -> Vec<(&'static str, u64)> {
+        let q = tier == Tier::Quick;
+        vec![
+            ("words_checked", if q { 11_200_000 } else { 600_000_000 }),
+            ("words_with_positions", if q { 4_000_000 } else { 200_000_000 }),
+            ("words_in_exception_list", if q { 20_000 } else { 1_000_000 }),
+            ("exception_words_where_patterns_also_match", if q { 8_000 } else { 300_000 }),
+            ("words_with_competing_odd_even_levels", if q { 500_000 } else { 25_000_000 }),
+            ("words_matched_by_start_anchored_pattern", if q { 250_000 } else { 12_000_000 }),
+            ("words_matched_by_end_anchored_pattern", if q { 250_000 } else { 12_000_000 }),
+            ("words_matched_by_pattern_of_17+_letters", if q { 20_000 } else { 700_000 }),
+            ("words_matched_by_pattern_with_16+_zero_run", if q { 15_000 } else { 600_000 }),
+            ("words_matched_by_level_6-9", if q { 1_200_000 } else { 60_000_000 }),
+            ("words_with_upper_case", if q { 1_200_000 } else { 70_000_000 }),
+            ("words_with_multibyte_letters", if q { 1_200_000 } else { 50_000_000 }),
+            ("plain_words_checked", if q { 200_000 } else { 6_000_000 }),
+            ("plain_words_with_positions", if q { 150_000 } else { 4_000_000 }),
+            ("plain_exception_words", if q { 5_000 } else { 150_000 }),
+            ("known_reproducer_ran", 1),
+        ]
+    }
+
+    fn calibrate(&self, obs: &mut Obs) {
+        // model vs. the repository's TeX-derived tables
+        let p = match plain() {
+            Ok(p) => p,
+            Err(e) => {
+                obs.inconclusive(format!("cannot load plain TeX patterns: {e}"));
+                return;
+            }
+        };
+        for (word, want) in GOLDEN_WORDS {
+            let lw: Vec<char> = word.chars().map(|c| c.to_ascii_lowercase()).collect();
+            let pos = p.model.positions(&lw);
+            let mut got = String::new();
+            for (i, c) in word.chars().enumerate() {
+                if pos.contains(&i) {
+                    got.push('-');
+                }
+                got.push(c);
+            }
+            if got != *want {
+                obs.inconclusive(format!(
+                    "calibration: model hyphenates {word} as {got}, golden {want}"
+                ));
+            }
+            obs.count("calibration_words");
+        }
+        for (word, want) in GOLDEN_LEVELS {
+            let lw: Vec<char> = word.chars().collect();
+            let mut s = p.model.scores(&lw);
+            s[0] = 0;
+            s.truncate(lw.len());
+            if s != *want || p.model.scores(&lw) != p.model.scores_linear(&lw) {
+                obs.inconclusive(format!(
+                    "calibration: model levels for {word} are {s:?}, golden {want:?}"
+                ));
+            }
+            obs.count("calibration_level_vectors");
+        }
+        // TeXbook Appendix H
+        let mut m = Liang::new();
+        m.load_patterns("hy3ph he2n hena4 hen5at 1na n2at 1tio 2io o2n");
+        let w: Vec<char> = "hyphenation".chars().collect();
+        if m.scores(&w) != vec![0, 0, 3, 0, 0, 2, 5, 4, 2, 0, 2, 0] || m.positions(&w) != vec![2, 6] {
+            obs.inconclusive("calibration: TeXbook Appendix H example not reproduced by the model");
+        }
+    }
+
+    fn run_case(&self, phase: &str, idx: u64, rng: &mut Rng, obs: &mut Obs) {
+        match phase {
+            "known" => run_known(obs),
+            "enum" => run_enum(idx, obs),
+            "sets" => run_set(idx, rng, obs),
+            "long" => run_long(rng, obs),
+            "plain" => run_plain(rng, obs),
+            _ => obs.inconclusive(format!("unknown phase {phase}")),
+        }
+    }
+}
+
+fn run_known(obs: &mut Obs) {
+    let cfg = Config {
+        patterns: vec!["a9b".into()],
+        exceptions: vec!["ab-ab".into()],
+    };
+    let (real, model) = match build(&cfg, LcKind::Ascii) {
+        Ok(x) => x,
+        Err(p) => {
+            obs.repo_panic(&p, json!({"config": cfg_json(&cfg)}));
+            return;
+        }
+    };
+    obs.count("known_reproducer_ran");
+    let d = || cfg_json(&cfg);
+    for w in ["abab", "ABAB", "ab", "ababab"] {
+        check_word(obs, &real, &model, &d, w, true);
+    }
+    obs.nontrivial(&("known", &cfg.patterns, &cfg.exceptions));
+}
+
+fn run_enum(idx: u64, obs: &mut Obs) {
+    let (s, e, l, d) = enum_decode(idx);
+    let text = pattern_text(s, e, &l, &d);
+    if Pattern::parse(&text).map(|p| p.key()) != Ok((s, e, l.clone())) {
+        obs.inconclusive(format!("enum: pattern text {text} does not parse back"));
+        return;
+    }
+    // three configurations per pattern: alone; with exception "a-b"; with exception "ab-a"
+    for exc in [None, Some("a-b"), Some("ab-a")] {
+        let cfg = Config {
+            patterns: vec![text.clone()],
+            exceptions: exc.iter().map(|s| s.to_string()).collect(),
+        };
+        let (real, model) = match build(&cfg, LcKind::Ascii) {
+            Ok(x) => x,
+            Err(p) => {
+                obs.repo_panic(&p, json!({"config": cfg_json(&cfg)}));
+                return;
+            }
+        };
+        let dsc = || cfg_json(&cfg);
+        let mut w_idx = 0;
+        while let Some(w) = nth_word(ENUM_ALPHA, w_idx, 7) {
+            w_idx += 1;
+            let lower: String = w.iter().collect();
+            // full facts only on a thin slice (they cost more than the check itself)
+            let detailed = w_idx % 16 == 0 || (exc.is_some() && w.len() <= 3);
+            check_word(obs, &real, &model, &dsc, &lower, detailed);
+            if exc.is_none() {
+                let upper = lower.to_ascii_uppercase();
+                check_word(obs, &real, &model, &dsc, &upper, false);
+            }
+        }
+    }
+    obs.nontrivial_by_construction(1);
+    if obs.wants_sample() {
+        obs.sample(json!({"pattern": text, "words": "all of length <=7 over {a,b}"}));
+    }
+}
+
+fn run_set(idx: u64, rng: &mut Rng, obs: &mut Obs) {
+    let (alpha, lc, maxlen): (&'static [(char, char)], LcKind, usize) = match idx % 4 {
+        0 => (ASCII3, LcKind::Ascii, 7),
+        1 => (ASCII4, LcKind::Ascii, 6),
+        2 => (MULTI3, LcKind::Table(MULTI3), 7),
+        _ => (MULTI4, LcKind::Table(MULTI4), 6),
+    };
+    let cfg = gen_config(rng, alpha);
+    let (real, model) = match build(&cfg, lc) {
+        Ok(x) => x,
+        Err(p) => {
+            obs.repo_panic(&p, json!({"config": cfg_json(&cfg)}));
+            return;
+        }
+    };
+    obs.count("sets_built");
+    obs.add("patterns_loaded", cfg.patterns.len() as u64);
+    obs.add("exceptions_loaded", cfg.exceptions.len() as u64);
+    let dsc = || cfg_json(&cfg);
+    let mut any_pos = false;
+    let mut any_comp = false;
+    let mut sample_words: Vec<Value> = vec![];
+    // all words up to maxlen, lower case; every 4th also in a random case
+    let mut w_idx = 0;
+    while let Some(w) = nth_word(alpha, w_idx, maxlen) {
+        w_idx += 1;
+        let lower: String = w.iter().collect();
+        let detailed = w_idx % 8 == 0 || model.exception(&w).is_some();
+        if let Some(f) = check_word(obs, &real, &model, &dsc, &lower, detailed) {
+            any_pos |= f.has_position;
+            any_comp |= f.competition || f.exception_and_pattern_match;
+        }
+        if w_idx % 4 == 0 {
+            let mode = rng.below(4).max(1);
+            let cased = random_case(rng, alpha, &w, mode);
+            check_word(obs, &real, &model, &dsc, &cased, true);
+        }
+    }
+    // random longer words, biased to contain pattern letter strings and exception words
+    let pats: Vec<Pattern> = model.patterns().to_vec();
+    for _ in 0..40 {
+        let target = match rng.below(4) {
+            0 => rng.range_usize(1, 10),
+            1 => rng.range_usize(8, 20),
+            _ => rng.range_usize(15, 40),
+        };
+        let mut w: Vec<char> = vec![];
+        if rng.chance(1, 8) && !cfg.exceptions.is_empty() {
+            w = pick_string(rng, &cfg.exceptions).chars().filter(|c| *c != '-').collect();
+        } else {
+            while w.len() < target {
+                if rng.chance(2, 3) && !pats.is_empty() {
+                    w.extend(rng.pick(&pats).letters.iter());
+                } else {
+                    w.push(rng.pick(alpha).0);
+                }
+            }
+            w.truncate(40);
+        }
+        let mode = rng.below(4);
+        let cased = random_case(rng, alpha, &w, mode);
+        if let Some(f) = check_word(obs, &real, &model, &dsc, &cased, true) {
+            any_pos |= f.has_position;
+            any_comp |= f.competition || f.exception_and_pattern_match;
+            if sample_words.len() < 3 && f.has_position {
+                let lw = real.lower(&cased).unwrap_or_default();
+                sample_words.push(json!({"word": cased, "positions": model.positions(&lw)}));
+            }
+        }
+    }
+    if any_pos && any_comp {
+        obs.nontrivial(&(idx % 4, &cfg.patterns, &cfg.exceptions));
+    }
+    if obs.wants_sample() {
+        obs.sample(json!({"config": cfg_json(&cfg), "words": w_idx, "examples": sample_words}));
+    }
+}
+
+fn run_long(rng: &mut Rng, obs: &mut Obs) {
+    let (alpha, lc): (&'static [(char, char)], LcKind) = if rng.chance(3, 4) {
+        (ASCII3, LcKind::Ascii)
+    } else {
+        (MULTI4, LcKind::Table(MULTI4))
+    };
+    // 1-3 long patterns whose non-zero levels sit right around gaps 15..17 and 31..33 counted from
+    // the previous non-zero level (the op stream stores at most 15 skipped zeros per byte)
+    let mut cfg = Config::default();
+    let mut keys = std::collections::HashSet::new();
+    let mut long_letters: Vec<Vec<char>> = vec![];
+    for _ in 0..rng.range_usize(1, 3) {
+        let len = rng.range_usize(17, 40);
+        let letters: Vec<char> = (0..len).map(|_| rng.pick(alpha).0).collect();
+        let start = rng.chance(1, 6);
+        let end = rng.chance(1, 6);
+        let mut digits = vec![0u8; len + 1];
+        let mut g = 0usize;
+        let mut first = true;
+        loop {
+            let step = *rng.pick(&[14usize, 15, 16, 17, 18, 30, 31, 32, 33, 34, 1, 2, 5]);
+            // the first level may sit at gap `step - 1` so that exactly `step-1` zeros precede it
+            g += if first { step.saturating_sub(rng.usize_below(2)) } else { step };
+            first = false;
+            if g > len {
+                break;
+            }
+            digits[g] = rng.range_usize(1, 9) as u8;
+        }
+        if rng.chance(1, 4) {
+            // nothing but zeros up to a late level or up to the end
+            for d in digits.iter_mut() {
+                *d = 0;
+            }
+            if rng.coin() {
+                digits[len] = rng.range_usize(1, 9) as u8;
+            } else if rng.coin() {
+                let i = rng.range_usize(16.min(len), len);
+                digits[i] = rng.range_usize(1, 9) as u8;
+            }
+        }
+        if keys.insert((start, end, letters.clone())) {
+            cfg.patterns.push(pattern_text(start, end, &letters, &digits));
+            long_letters.push(letters);
+        }
+    }
+    // a few short patterns compete with them
+    for _ in 0..rng.range_usize(0, 4) {
+        let len = rng.range_usize(1, 3);
+        let (s, e, l, d) = gen_pattern(rng, alpha, len);
+        if keys.insert((s, e, l.clone())) {
+            cfg.patterns.push(pattern_text(s, e, &l, &d));
+        }
+    }
+    if rng.chance(1, 4) {
+        let l = rng.pick(&long_letters).clone();
+        let mut s = String::new();
+        for (i, c) in l.iter().enumerate() {
+            s.push(*c);
+            if i + 1 < l.len() && rng.chance(1, 5) {
+                s.push('-');
+            }
+        }
+        cfg.exceptions.push(s);
+    }
+    let (real, model) = match build(&cfg, lc) {
+        Ok(x) => x,
+        Err(p) => {
+            obs.repo_panic(&p, json!({"config": cfg_json(&cfg)}));
+            return;
+        }
+    };
+    obs.count("long_sets_built");
+    let dsc = || cfg_json(&cfg);
+    let mut any = false;
+    for l in &long_letters {
+        for variant in 0..4 {
+            // the pattern's letters with 0..(40-len) letters around them: exact word, prefixed, suffixed
+            let room = 40 - l.len();
+            let (pre, suf) = match variant {
+                0 => (0, 0),
+                1 => (rng.range_usize(0, room), 0),
+                2 => (0, rng.range_usize(0, room)),
+                _ => {
+                    let a = rng.range_usize(0, room);
+                    (a, rng.range_usize(0, room - a))
+                }
+            };
+            let mut w: Vec<char> = (0..pre).map(|_| rng.pick(alpha).0).collect();
+            w.extend(l.iter());
+            w.extend((0..suf).map(|_| rng.pick(alpha).0));
+            let mode = rng.below(4);
+            let cased = random_case(rng, alpha, &w, mode);
+            if let Some(f) = check_word(obs, &real, &model, &dsc, &cased, true) {
+                any |= f.long_match;
+            }
+        }
+        // one letter changed: the long pattern must NOT match any more
+        let mut w = l.clone();
+        let i = rng.usize_below(w.len());
+        let other = alpha.iter().map(|(c, _)| *c).find(|c| *c != w[i]).unwrap_or(w[i]);
+        w[i] = other;
+        let lower: String = w.iter().collect();
+        check_word(obs, &real, &model, &dsc, &lower, true);
+    }
+    if any {
+        obs.nontrivial(&("long", &cfg.patterns, &cfg.exceptions));
+    }
+    if obs.wants_sample() {
+        obs.sample(json!({"config": cfg_json(&cfg)}));
+    }
+}
+
+fn run_plain(rng: &mut Rng, obs: &mut Obs) {
+    let p = match plain() {
+        Ok(p) => p,
+        Err(e) => {
+            obs.inconclusive(format!("cannot load plain TeX patterns: {e}"));
+            return;
+        }
+    };
+    let dsc = || json!("plain TeX patterns + exceptions (Hyphenator::plain_tex_en_us)");
+    let mut words = vec![];
+    for _ in 0..64 {
+        let w = gen_plain_word(rng, p);
+        let lw: Vec<char> = w.chars().map(|c| c.to_ascii_lowercase()).collect();
+        obs.count("plain_words_checked");
+        if p.model.exception(&lw).is_some() {
+            obs.count("plain_exception_words");
+        }
+        if let Some(f) = check_word(obs, &p.real, &p.model, &dsc, &w, rng.chance(1, 8)) {
+            if f.has_position {
+                obs.count("plain_words_with_positions");
+                obs.nontrivial(&("plain", &w));
+                if words.len() < 3 {
+                    words.push(json!({"word": w, "positions": p.model.positions(&lw)}));
+                }
+            }
+        }
+    }
+    if obs.wants_sample() {
+        obs.sample(json!({"plain_tex_words": words}));
+    }
 }
